@@ -1,5 +1,7 @@
 import ModVerif.AuditCmd
 import ModVerif.Props.C10
 import ModVerif.Tie.Tlog
+import ModVerif.Tie.FnTile
 #audit_module ModVerif.Props.C10
 #audit_module ModVerif.Tie.Tlog
+#audit_module ModVerif.Tie.FnTile
